@@ -1,1 +1,121 @@
-/-! C03 — property theorems (stub: nothing proved yet). -/
+import B6.Lemmas.FeatureIndex
+import B6.Props.C06
+/-!
+# C03 — Tag search returns exactly the matching features in ID order
+
+Spec: `B6.Spec.TagQuery` (`denote`, `searchable`, `expected`).  Model: `B6.Model.FeatureSearch` (`TokenForTag`,
+`TokensForFeature`, `Query.Compile` = `lower` into the search package's queries, the index built from the features,
+`FindFeatures` = a `Next` loop over the compiled iterator of `B6.Model.Search`), `Merged` (`b6.MergeFeatures`).
+Theorems are for all feature lists, all query trees (any depth) and all indices satisfying the invariant.
+-/
+namespace B6.Props.C03
+open B6.Spec.Cursor B6.Spec.SearchQuery B6.Spec.TagQuery B6.Model.Search B6.Model.FeatureSearch
+open B6.Lemmas.Search B6.Lemmas.TagQuery
+
+/-- **Sound and complete.** For features with well-formed keys and distinct IDs, an index that holds exactly their
+postings, and any query over searchable tags, `Query.Compile` yields a well-formed search query that denotes
+exactly `expected fs q`: the IDs of the searchable features whose tags satisfy the query, strictly increasing,
+each once. -/
+theorem compile_sound_complete (fs : List Feature) (ix : Index) (hinv : IndexInv fs ix)
+    (hfs : ∀ f ∈ fs, FeatureOK f) (hid : (fs.map Feature.id).Nodup) (q : Query) (hq : QueryOK q) :
+    ∃ sq, lower q = some sq ∧ sq.WF ∧ sq.denote ix = expected fs q ∧ StrictSorted (expected fs q) := by
+  obtain ⟨sq, h1, h2, h3⟩ := lower_spec fs ix hinv hfs hid q hq
+  refine ⟨sq, h1, h2, ?_, sortDedup_sorted _⟩
+  apply StrictSorted.ext (denote_spec ix hinv.1 sq).1 (sortDedup_sorted _)
+  intro x
+  rw [h3 x]
+  unfold Sel
+  rw [mem_sortDedup, List.mem_map]
+  constructor
+  · rintro ⟨f, hf, hx, hs, hd⟩
+    exact ⟨f, List.mem_filter.2 ⟨hf, by simp [hs, hd]⟩, hx⟩
+  · rintro ⟨f, hf, hx⟩
+    obtain ⟨hf1, hf2⟩ := List.mem_filter.1 hf
+    simp only [Bool.and_eq_true] at hf2
+    exact ⟨f, hf1, hx, hf2.1, hf2.2⟩
+
+/-- The index every world builds (`TokensForFeature` per feature, posting lists kept sorted) satisfies the
+invariant — for every feature list. -/
+theorem build_index_inv (kind : LeafKind) (fs : List Feature) : IndexInv fs (buildIndex kind fs) :=
+  buildIndex_inv kind fs
+
+/-- **FindFeatures.** On the index built from `fs`, running the compiled iterator with plain `Next` calls returns
+exactly `expected fs q`, in that order. -/
+theorem find_features_spec (kind : LeafKind) (fs : List Feature) (hfs : ∀ f ∈ fs, FeatureOK f)
+    (hid : (fs.map Feature.id).Nodup) (q : Query) (hq : QueryOK q) :
+    findFeatures (buildIndex kind fs) q = .ok (expected fs q) := by
+  have hinv := buildIndex_inv kind fs
+  obtain ⟨sq, h1, h2, h3, _⟩ := compile_sound_complete fs _ hinv hfs hid q hq
+  unfold findFeatures
+  simp only [h1]
+  have href := B6.Props.C06.compile_refines ((buildIndex kind fs).total + 1) (buildIndex kind fs) hinv.1
+    (Nat.lt_succ_self _) sq h2 (depth sq) (Nat.le_refl _)
+  have hlen := denote_length_le (buildIndex kind fs) hinv.1 sq
+  have := drain_of_refinesAt (ops ((buildIndex kind fs).total + 1) (depth sq)) (start (sq.denote _)) _
+    ((buildIndex kind fs).total - (sq.denote (buildIndex kind fs)).length) href
+  have hfuel : (start (sq.denote (buildIndex kind fs))).rest.length + 1 +
+      ((buildIndex kind fs).total - (sq.denote (buildIndex kind fs)).length) = (buildIndex kind fs).total + 1 := by
+    simp only [start]; omega
+  rw [hfuel] at this
+  rw [this, ← h3]; rfl
+
+/-- **k-way merge.** `b6.MergeFeatures` over streams that yield strictly increasing ID lists yields, under any
+number of `Next` calls, what the spec cursor over the merged, duplicate-free list yields. -/
+theorem merge_sorted_dedup {σ : Type} (o : IterOps σ) (streams : List (σ × List Nat)) (ys : List Nat)
+    (hch : ∀ p ∈ streams, Refines o p.1 p.2) (hys : StrictSorted ys)
+    (hmem : ∀ x, x ∈ ys ↔ ∃ p ∈ streams, x ∈ p.2) (n : Nat) :
+    runImpl (mergedOps o) (.fresh (streams.map (·.1))) (List.replicate n Call.next) =
+      some (runSpec (start ys) (List.replicate n Call.next)) :=
+  merged_run o n _ _ (B6.Lemmas.Search.union_refines o streams ys hch hys hmem)
+
+/-- … in particular a full drain returns exactly the merged list, then `false`. -/
+theorem merge_drain {σ : Type} (o : IterOps σ) (streams : List (σ × List Nat)) (ys : List Nat)
+    (hch : ∀ p ∈ streams, Refines o p.1 p.2) (hys : StrictSorted ys)
+    (hmem : ∀ x, x ∈ ys ↔ ∃ p ∈ streams, x ∈ p.2) :
+    runImpl (mergedOps o) (.fresh (streams.map (·.1))) (List.replicate (ys.length + 1) Call.next) =
+      some (ys.map (fun x => (true, some x)) ++ [(false, none)]) := by
+  rw [merge_sorted_dedup o streams ys hch hys hmem]
+  exact congrArg some (B6.Props.C06.spec_drain (start ys))
+
+/-! ## The known finding: `Tagged` on an `@` key (the clause `QueryOK` excludes) -/
+
+def exFeatures : List Feature :=
+  [⟨0, 1, 1, [("point".toList, "51.5,-0.1".toList), ("@name".toList, "yes".toList)]⟩,
+   ⟨0, 1, 2, [("point".toList, "51.5,-0.1".toList), ("#amenity".toList, "cafe".toList)]⟩,
+   ⟨0, 1, 3, [("point".toList, "51.5,-0.1".toList)]⟩,
+   ⟨1, 1, 10, [("path".toList, "".toList), ("#highway".toList, "1".toList), ("#amenity".toList, "pub".toList)]⟩]
+
+/-- the full statement, without the restriction to `#` keys on `tagged` -/
+def find_features_statement : Prop :=
+  ∀ (fs : List Feature) (q : Query), (∀ f ∈ fs, FeatureOK f) → (fs.map Feature.id).Nodup →
+    findFeatures (buildIndex .array fs) q = .ok (expected fs q)
+
+/-- `Tagged{@name=yes}` compiles to the empty iterator although the point is tagged `@name=yes`. -/
+theorem tagged_at_key_counterexample :
+    (findFeatures (buildIndex .array exFeatures) (.tagged "@name".toList "yes".toList)).toOption = some [] ∧
+    expected exFeatures (.tagged "@name".toList "yes".toList) = [key 0 1 1] := by
+  decide
+
+/-! ## Non-vacuity -/
+
+example : ∀ f ∈ exFeatures, FeatureOK f := by
+  intro f hf
+  simp only [exFeatures, List.mem_cons, List.not_mem_nil, or_false] at hf
+  rcases hf with rfl | rfl | rfl | rfl <;>
+    (refine ⟨by decide, by decide, by decide, ?_⟩; intro t ht; simp at ht; rcases ht with rfl | rfl | rfl <;> simp [KeyOK]) <;>
+    (refine ⟨by decide, by decide, by decide, ?_⟩; intro t ht; simp at ht; rcases ht with rfl | rfl <;> simp [KeyOK]) <;>
+    (refine ⟨by decide, by decide, by decide, ?_⟩; intro t ht; simp at ht; subst ht; simp [KeyOK])
+
+example : (exFeatures.map Feature.id).Nodup := by decide
+
+def exQuery : Query :=
+  .or [.typed 0 (.keyed "#amenity".toList), .and [.keyed "#highway".toList, .tagged "#amenity".toList "pub".toList]]
+
+example : QueryOK exQuery := by
+  simp [exQuery, QueryOK, QueryOKList, KeyOK]
+
+example : (findFeatures (buildIndex .array exFeatures) exQuery).toOption = some [key 0 1 2, key 1 1 10] := by decide
+
+example : expected exFeatures exQuery = [key 0 1 2, key 1 1 10] := by decide
+
+end B6.Props.C03
